@@ -1,12 +1,95 @@
 /-
-  C14 — property theorems only; helper lemmas live in Nutree/Lemmas.
+  C14 — the nested dict form: `to_dict_list()` mirrors the tree, and `from_dict(to_dict_list())`
+  rebuilds it (string data, no mapper).
+  Property theorems only; helper lemmas live in Nutree/Lemmas/SerialDict.lean (and SerialAdd.lean).
 -/
 import Nutree.Model.Serial
+import Nutree.Model.Filter
+import Nutree.Spec.WF
+import Nutree.Lemmas.SerialDict
 namespace Nutree.C14
-open Nutree T Nutree.Ser
+open Nutree T Nutree.Ser Nutree.Flt.Spec
 
-/-- the header written by save names generator and format version (constants regenerated from the source). -/
-theorem header_generator (o : Opts) (h : ∀ k, (k, v) ∈ o.fileMeta → k ≠ "$generator" ∧ k ≠ "$format_version") :
-    True := trivial
+/-! ### D1 — `to_dict` / `to_dict_list` without mapper mirror the tree -/
+
+/-- `node.to_dict()` without mapper is the documented mirror of the branch (`Ser.mirror`):
+`{"data": str(data)}`, plus `"data_id"` iff the id is not the default `hash(data)`, plus
+`"children"` (the mirrored child list) iff the node has children — in this key order. -/
+theorem toDict_mirror (t : T) : toDict (fun _ _ => none) t = mirror t := Ser.toDict_mirror t
+
+/-- `to_dict_list()` without mapper: the mirrors of the nodes, in order. -/
+theorem toDictL_mirror (ks : List T) : toDictL (fun _ _ => none) ks = mirrorL ks := Ser.toDictL_mirror ks
+
+/-- `to_dict_list(mapper=)` has one object per node, whatever the mapper does. -/
+theorem toDictL_length (ser : T → Fields → Option Fields) (ks : List T) :
+    (toDictL ser ks).length = ks.length := Ser.toDictL_length ser ks
+
+/-- the same, key by key and without reference to `mirror`: the object of node `n` has
+`"data" = str(n.data)`, has `"data_id"` (= the node's id) iff that id is not `hash(data)`, and has
+`"children"` (= the list for `n.kids`) iff `n` has children. -/
+theorem toDict_keys (n : T) :
+    ∃ d, toDict (fun _ _ => none) n = .obj d ∧
+      lookupF d "data" = some (.str n.name) ∧
+      lookupF d "data_id" = (if n.did ≠ n.data.hid then some (didJ n.did) else none) ∧
+      lookupF d "children" =
+        (if n.kids.isEmpty then none else some (.arr (toDictL (fun _ _ => none) n.kids))) := by
+  refine ⟨mirrorFields n, ?_, lookup_mirror_data n, lookup_mirror_data_id n, ?_⟩
+  · rw [Ser.toDict_mirror, mirror_eq]
+  · rw [lookup_mirror_children, Ser.toDictL_mirror]
+
+/-! ### D2 — `from_dict(to_dict_list())` rebuilds the forest -/
+
+/-- **Round trip through the nested dict form, with the id counter.**  As `fromDict_toDict`, and in
+addition: exactly one fresh node id per node is consumed (the rebuilt nodes are numbered
+`1 … |ks|` in pre-order) and the rebuilt tree is a plain, hook-free tree. -/
+theorem fromDict_toDict_counter (strAtom : String → Atom) (ks : List T) (fuel : Nat)
+    (hdata : ∀ n ∈ flatL ks, strAtom n.name = n.data)
+    (htop : (ks.map T.did).Nodup)
+    (hsib : ∀ x ∈ flatL ks, (x.kids.map T.did).Nodup)
+    (hkind : ∀ n ∈ flatL ks, n.kind = none)
+    (hfuel : heightL ks ≤ fuel) :
+    ∃ t', fromDictL strAtom none fuel (toDictL (fun _ _ => none) ks) {} 0 1
+          = .ok (t', 1 + (flatL ks).length) ∧
+      shL t'.root.kids = shL ks ∧ WF t' ∧ C01.Fresh t' (1 + (flatL ks).length) ∧
+      t'.typed = false ∧ t'.hook = none := by
+  have hroot : findT 0 ({} : Tree).root = some (mkRoot []) := by
+    show findT 0 (mkRoot []) = some (mkRoot [])
+    rw [mkRoot, findT_node]; rfl
+  have hfresh : C01.Fresh ({} : Tree) 1 := by
+    refine ⟨Nat.one_pos, ?_⟩
+    intro x hx
+    have : x = mkRoot [] := by
+      have : x ∈ flat (mkRoot []) := hx
+      rw [mkRoot, flat_node, flatL_nil] at this
+      simpa [mkRoot] using this
+    subst this
+    exact Nat.one_pos
+  obtain ⟨t', ks', hrun, hr, hsh, hwf, hf, hty, hhk⟩ :=
+    fromDictL_mirrorL strAtom ks fuel {} 0 1 (mkRoot []) C01.WF_init hfresh rfl rfl hroot
+      (by intro c hc; simp [mkRoot] at hc) htop hsib hfuel hdata hkind
+  refine ⟨t', ?_, ?_, hwf, hf, hty, hhk⟩
+  · rw [Ser.toDictL_mirror]; exact hrun
+  · have : t'.root = mkRoot ks' := by
+      rw [hr]; exact modT_root_append ks'
+    rw [this]; exact hsh
+
+/-- **Round trip through the nested dict form** (`Tree.from_dict(tree.to_dict_list())`, string data,
+no mapper).  `ks` is the source forest (its node identities are irrelevant and not constrained).
+Hypotheses: every data object is the string that `strAtom` finds again from `str(data)`; data ids
+are unique among siblings (top level included); the source is a plain tree (no kinds — the rebuilt
+tree is untyped); the recursion fuel covers the nesting depth, `heightL ks ≤ fuel` (this bound is
+sharp: `fromDictL` with exhausted fuel returns silently, so any smaller fuel loses the deepest nodes).
+Then `from_dict` succeeds on the empty tree, the rebuilt forest has the same shape, data objects,
+data ids (custom and default ones) as the source, and the rebuilt tree is well-formed. -/
+theorem fromDict_toDict (strAtom : String → Atom) (ks : List T) (fuel : Nat)
+    (hdata : ∀ n ∈ flatL ks, strAtom n.name = n.data)
+    (htop : (ks.map T.did).Nodup)
+    (hsib : ∀ x ∈ flatL ks, (x.kids.map T.did).Nodup)
+    (hkind : ∀ n ∈ flatL ks, n.kind = none)
+    (hfuel : heightL ks ≤ fuel) :
+    ∃ t' next', fromDictL strAtom none fuel (toDictL (fun _ _ => none) ks) {} 0 1 = .ok (t', next') ∧
+      shL t'.root.kids = shL ks ∧ WF t' := by
+  obtain ⟨t', hrun, hsh, hwf, _⟩ := fromDict_toDict_counter strAtom ks fuel hdata htop hsib hkind hfuel
+  exact ⟨t', _, hrun, hsh, hwf⟩
 
 end Nutree.C14
